@@ -50,8 +50,9 @@ class HubQuerier(Querier):
 class HubWorld:
     """one symbolic pre-state of the hub + environment."""
 
-    def __init__(self, ctx, n_validators=1, n_delegations=1, envelope=True, feas_ms=1500):
+    def __init__(self, ctx, n_validators=1, n_delegations=1, envelope=True, feas_ms=1500, fixed=None):
         self.ctx = ctx
+        self.fixed = dict(fixed or {})       # world variables given a concrete value (plain shapes of many-entry obligations)
         I = self.I = ctx.interp(feas_ms)
         self.mk = Mk(I)
         st = self.st = State()
@@ -123,6 +124,12 @@ class HubWorld:
         self.height = 12345
 
     def iv(self, name, lo, hi):
+        if name in getattr(self, 'fixed', {}):
+            v = self.fixed[name]
+            if not (lo <= v <= hi):
+                raise ValueError('fixed value of %s outside its range' % name)
+            self.mv[name] = v
+            return v
         v = z3.Int(name)
         self.st.add(z3.And(v >= lo, v <= hi))
         self.I.set_bounds(v, lo, hi)
